@@ -17,9 +17,26 @@ def value_token(v):
     return '?' + type(v).__name__
 
 
+def read_value(frame, it):
+    """the field value as the API hands it out: frame.f.<name>, frame.get(name).value and the item itself must agree"""
+    v = it.value
+    try:
+        va = getattr(frame.f, it.name)
+    except Exception as e:
+        va = e
+    try:
+        vg = frame.get(it.name).value
+    except Exception as e:
+        vg = e
+    same = lambda a, b: type(a) is type(b) and a == b
+    if same(v, va) and same(v, vg):
+        return value_token(v)
+    return f'?item={value_token(v)}/attr={value_token(va)}/get={value_token(vg)}'
+
+
 def render_fields(frame):
     items = sorted(frame.f._fields.values(), key=lambda it: it.order)
-    return ','.join(f'{it.name}:{R.item_token(it)}:{value_token(it.value)}' for it in items) or '-'
+    return ','.join(f'{it.name}:{R.item_token(it)}:{read_value(frame, it)}' for it in items) or '-'
 
 
 _REUSE = {}
